@@ -27,7 +27,8 @@ RULE = ("cases = (i) individual-level operations executed on real individuals fr
 def run(ctx):
     q = ctx.quick
     memlib.unit(ctx, ["new", "new_unevaluated", "clone", "clone_from", "solution_mut", "solution_mut_peek", "as_solutions_mut",
-                      "round_trip", "evaluate_with", "set_objective", "evaluate"])
+                      "round_trip", "evaluate_with", "set_objective", "evaluate",
+                      "user_mutation", "user_mutation_v", "user_select_replace"])
     runlib.run_templates(ctx, ["C05"], seeds=[ctx.seed, ctx.seed + 1] if q else list(range(ctx.seed, ctx.seed + 12)),
                          iters=[3] if q else [1, 8, 30])
     # differential evolution with several difference vectors on clamped (coinciding) individuals needs a few passes
